@@ -1,6 +1,6 @@
 (* The liftover tables as translated from genomic_position_offsets.py / var_stats.py (Generated/KernelsGpo.v, loops as folds)
    equal the hand-written model of Model/Gpo.v. *)
-From VV Require Import Model.Base Model.Pattern Model.Gpo Model.PyLoop Proofs.BaseLemmas Generated.KernelsGpo.
+From VV Require Import Model.Base Model.Pattern Model.Gpo Model.PyStr Model.PyLoop Proofs.BaseLemmas Generated.KernelsGpo.
 
 Lemma mapM_pure {X Y} (g : X -> Y) l : mapM (fun x => Ok (g x)) l = Ok (map g l).
 Proof. induction l as [|x l IH]; cbn [mapM map bind]; [reflexivity|]. rewrite IH. reflexivity. Qed.
@@ -346,3 +346,179 @@ Proof.
   - rewrite k_compute_ref_del_mask_eq; [rewrite Hm; reflexivity|exact Hn|rewrite Hm; discriminate].
   - apply Z.ltb_ge in Hneg. rewrite k_compute_alt_ins_mask_eq; [rewrite Hi; reflexivity|exact Hneg|rewrite Hi; discriminate].
 Qed.
+
+(* ---- the methods of GenomicPositionOffsets that read the tables ---- *)
+Definition kgpo_of (g : gpo) : kgpo :=
+  mkKGpo (g_range g) (g_alt_length g) (g_pos_offsets g) (zmask (g_del g)) (zmask (g_shift g)) (g_alt_offsets g) (zmask (g_ins g)).
+
+Lemma slen_dna' d : slen (string_of_dna d) = zlen d.
+Proof. unfold slen, zlen. f_equal. induction d as [|x d IH]; cbn; [reflexivity|now rewrite IH]. Qed.
+
+Lemma znth_map {X Y} (f : X -> Y) i l : znth i (map f l) = option_map f (znth i l).
+Proof. unfold znth. destruct (i <? 0); [reflexivity|]. apply nth_error_map. Qed.
+
+(* reading a byte of a mask at a non-negative index *)
+Lemma py_index_zmask m i : 0 <= i ->
+  py_index (zmask m) i = match mget m i with Ok b => Ok (b2z b) | Err e => Err e end.
+Proof.
+  intros Hi. unfold py_index, py_norm, mget. rewrite (proj2 (Z.ltb_ge _ _) Hi).
+  unfold zmask. rewrite znth_map. destruct (znth i m); reflexivity.
+Qed.
+
+Lemma k_gpo_alt_end_eq g : k_gpo_alt_end (kgpo_of g) = Ok (alt_end g).
+Proof. unfold k_gpo_alt_end, alt_end, k_gpo_ref_start, kg_get_end, kg_clamp_non_negative, get_end, g_start. cbn [kgpo_of kg_alt_length kg_range bind]. destruct (g_alt_length g =? 0); reflexivity. Qed.
+
+Theorem k_gpo_alt_to_ref_position_eq g q : k_gpo_alt_to_ref_position (kgpo_of g) q = alt_to_ref_position g q.
+Proof.
+  unfold k_gpo_alt_to_ref_position, k_gpo_validate_alt_position, alt_to_ref_position. rewrite k_gpo_alt_end_eq.
+  unfold k_gpo_ref_start, g_start. cbn [bind kgpo_of kg_range].
+  destruct (alt_end g) as [e|]; cbn [bind].
+  2:{ destruct (q <? rs (g_range g)); reflexivity. }
+  destruct (q <? rs (g_range g)) eqn:E1; cbn [bind orb]; [reflexivity|].
+  destruct (e <? q) eqn:E2; cbn [bind]; [reflexivity|].
+  unfold k_gpo_alt_pos_exists_in_ref, k_gpo_pos_to_offset, k_gpo_ref_start. cbn [bind kgpo_of kg_range kg_ins].
+  apply Z.ltb_ge in E1. rewrite py_index_zmask by lia.
+  destruct (mget (g_ins g) (q - rs (g_range g))) as [b|er]; cbn [bind]; [|reflexivity].
+  destruct b; cbn [b2z Z.eqb negb]; [reflexivity|].
+  unfold k_gpo_alt_to_ref_position_unsafe, k_gpo_get_alt_pos_offset. cbn [kgpo_of kg_alt_offsets].
+  rewrite k_get_pos_offset_eq. reflexivity.
+Qed.
+
+Lemma k_gpo_ref_pos_overlaps_var_eq g p : g_start g <= p ->
+  k_gpo_ref_pos_overlaps_var (kgpo_of g) p = ref_pos_overlaps_var g p.
+Proof.
+  intros H. unfold k_gpo_ref_pos_overlaps_var, k_gpo_pos_to_offset, k_gpo_ref_start, ref_pos_overlaps_var, g_start in *.
+  cbn [bind kgpo_of kg_range kg_shift]. rewrite py_index_zmask by lia.
+  destruct (mget (g_shift g) (p - rs (g_range g))) as [b|e]; cbn [bind]; [|reflexivity]. destruct b; reflexivity.
+Qed.
+
+Lemma mget_not_other m i : mget m i <> Err OtherErr -> 0 <= i.
+Proof. unfold mget. destruct (Z.ltb_spec i 0) as [Hlt|Hge]; [intros Hc; now elim Hc|lia]. Qed.
+
+(* the scan over the lifted positions: wherever the model does not meet a negative array index, the translated loop is any_res *)
+Lemma overlap_scan g l : any_res (ref_pos_overlaps_var g) l <> Err OtherErr ->
+  fold_x (fun (_acc : unit) ref_pos => do b <- k_gpo_ref_pos_overlaps_var (kgpo_of g) ref_pos; if b then Ok (inr true) else Ok (inl tt)) l tt
+  = match any_res (ref_pos_overlaps_var g) l with Ok true => Ok (inr true) | Ok false => Ok (inl tt) | Err e => Err e end.
+Proof.
+  induction l as [|x l IH]; intros H; cbn [fold_x any_res]; [reflexivity|].
+  cbn [any_res] in H.
+  assert (Hx : g_start g <= x).
+  { assert (H0 : ref_pos_overlaps_var g x <> Err OtherErr) by (intros E; rewrite E in H; now apply H).
+    unfold ref_pos_overlaps_var in H0. apply mget_not_other in H0. lia. }
+  rewrite k_gpo_ref_pos_overlaps_var_eq by exact Hx.
+  destruct (ref_pos_overlaps_var g x) as [b|e]; cbn [bind]; [|reflexivity].
+  cbn [bind] in H. destruct b; [reflexivity|]. apply IH. exact H.
+Qed.
+
+Theorem k_gpo_alt_var_overlaps_var_eq g v :
+  alt_var_overlaps_var g (v_pos v) (zlen (v_ref v)) <> Err OtherErr ->
+  k_gpo_alt_var_overlaps_var (kgpo_of g) v = alt_var_overlaps_var g (v_pos v) (zlen (v_ref v)).
+Proof.
+  unfold k_gpo_alt_var_overlaps_var, alt_var_overlaps_var. rewrite k_gpo_alt_to_ref_position_eq.
+  destruct (alt_to_ref_position g (v_pos v)) as [[s|]|e]; cbn [bind]; try reflexivity.
+  unfold kg_var_ref_end, kg_var_ref_len, kg_get_end, kg_clamp_non_negative, v_ref_s. cbn [bind]. rewrite !slen_dna'.
+  destruct (zlen (v_ref v) <=? 1); [reflexivity|].
+  fold (get_end (v_pos v) (zlen (v_ref v))). rewrite k_gpo_alt_to_ref_position_eq.
+  destruct (alt_to_ref_position g (get_end (v_pos v) (zlen (v_ref v)))) as [[e|]|er]; cbn [bind]; try reflexivity.
+  destruct (mk_range s e) as [rr|er]; cbn [bind]; [|reflexivity].
+  destruct (negb (rlen rr =? zlen (v_ref v))); [reflexivity|].
+  unfold k_range_positions. cbn [bind]. fold (zrange (rs rr) (re rr + 1)). fold (positions rr).
+  intros Hno. rewrite (overlap_scan g (positions rr) Hno).
+  destruct (any_res (ref_pos_overlaps_var g) (positions rr)) as [[|]|er]; reflexivity.
+Qed.
+
+(* ---- REF -> ALT: ref_to_alt_position / ref_to_alt_range ---- *)
+Lemma u8_prev_nat_zmask m j : u8_prev_nat (zmask m) 0 j = prev_index_nat m j.
+Proof.
+  induction j as [|j IH]; cbn [u8_prev_nat prev_index_nat]; [reflexivity|].
+  unfold zmask at 1. rewrite nth_error_map. destruct (nth_error m j) as [[|]|]; cbn [option_map b2z Z.eqb]; auto.
+Qed.
+
+Lemma u8_prev_index_zmask m i : i <= zlen m -> u8_prev_index (zmask m) i 0 = Ok (get_prev_index m i).
+Proof.
+  intros H. unfold u8_prev_index, get_prev_index. rewrite zmask_length.
+  rewrite (proj2 (Z.ltb_ge _ _) H), andb_false_r. now rewrite u8_prev_nat_zmask.
+Qed.
+
+Lemma u8_next_from_zmask m : forall k lo, u8_next_from k (zmask m) lo 0 = next_index_from k m lo.
+Proof.
+  induction m as [|b m IH]; intros k lo; cbn [zmask map u8_next_from next_index_from]; [reflexivity|].
+  fold (zmask m). rewrite IH. destruct b; reflexivity.
+Qed.
+
+Lemma u8_next_index_zmask m i : 0 <= i + 1 -> u8_next_index (zmask m) i 0 = Ok (get_next_index m i).
+Proof.
+  intros H. unfold u8_next_index, get_next_index. rewrite (proj2 (Z.ltb_ge _ _) H). now rewrite u8_next_from_zmask.
+Qed.
+
+Theorem k_gpo_ref_to_alt_position_eq g p nearest : zlen (g_del g) = g_ref_length g ->
+  k_gpo_ref_to_alt_position (kgpo_of g) p nearest = ref_to_alt_position g p nearest.
+Proof.
+  intros Hwf. unfold k_gpo_ref_to_alt_position, ref_to_alt_position, k_gpo_pos_to_offset, k_gpo_ref_start, k_gpo_ref_length, g_start, g_ref_length in *.
+  cbn [bind kgpo_of kg_range kg_del].
+  destruct (p - rs (g_range g) <? 0) eqn:E0; [reflexivity|]. apply Z.ltb_ge in E0.
+  destruct (p - rs (g_range g) <? rlen (g_range g)) eqn:E1.
+  - apply Z.ltb_lt in E1. rewrite py_index_zmask by lia.
+    destruct (mget (g_del g) (p - rs (g_range g))) as [b|e]; cbn [bind]; [|reflexivity].
+    unfold k_gpo_ref_offset_to_alt_pos, k_gpo_ref_to_alt_offset, k_gpo_get_ref_pos_offset, ref_offset_to_alt_pos. cbn [kgpo_of kg_pos_offsets bind].
+    destruct b; cbn [b2z Z.eqb negb].
+    + destruct nearest as [[|]|]; [| |reflexivity]; unfold k_SEARCH_F.
+      * rewrite u8_prev_index_zmask by lia. cbn [bind].
+        destruct (get_prev_index (g_del g) (p - rs (g_range g))) as [o|]; [|reflexivity].
+        unfold k_gpo_offset_to_pos, k_gpo_ref_start, g_start. cbn [bind kgpo_of kg_range]. rewrite k_get_pos_offset_eq. reflexivity.
+      * rewrite u8_next_index_zmask by lia. cbn [bind].
+        destruct (get_next_index (g_del g) (p - rs (g_range g))) as [o|]; [|reflexivity].
+        unfold k_gpo_offset_to_pos, k_gpo_ref_start, g_start. cbn [bind kgpo_of kg_range]. rewrite k_get_pos_offset_eq. reflexivity.
+    + rewrite k_get_pos_offset_eq. reflexivity.
+  - unfold k_gpo_ref_to_alt_offset, k_gpo_get_ref_pos_offset. cbn [kgpo_of kg_pos_offsets kg_range bind]. rewrite k_get_pos_offset_eq. reflexivity.
+Qed.
+
+Theorem k_gpo_ref_to_alt_range_eq g r shrink : zlen (g_del g) = g_ref_length g ->
+  k_gpo_ref_to_alt_range (kgpo_of g) r shrink = ref_to_alt_range g r shrink.
+Proof.
+  intros Hwf. unfold k_gpo_ref_to_alt_range, ref_to_alt_range. rewrite !k_gpo_ref_to_alt_position_eq by exact Hwf.
+  destruct (ref_to_alt_position g (rs r) (if shrink then Some After else None)) as [[s|]|e]; cbn [bind]; [|reflexivity|reflexivity].
+  destruct (ref_to_alt_position g (re r) (if shrink then Some Before else None)) as [[e|]|er]; cbn [bind]; [|reflexivity|reflexivity].
+  destruct (e <? s); [reflexivity|]. destruct (mk_range s e); reflexivity.
+Qed.
+
+(* a GenomicPositionOffsets built by from_var_stats has masks of the lengths it declares *)
+Lemma mark_length m i n m' : mark m i n = Ok m' -> zlen m' = zlen m.
+Proof.
+  unfold mark. destruct (n <=? 0); [intros H; injection H as <-; reflexivity|].
+  destruct (i <? 0); [discriminate|]. destruct (zlen m <? i + n); [discriminate|].
+  intros H; injection H as <-. unfold zlen. now rewrite mark_from_length.
+Qed.
+
+Lemma ref_masks_length start vs : forall dm sm dm' sm', ref_masks start vs dm sm = Ok (dm', sm') -> zlen dm' = zlen dm /\ zlen sm' = zlen sm.
+Proof.
+  induction vs as [|v vs IH]; intros dm sm dm' sm' H; cbn [ref_masks] in H.
+  - injection H as <- <-. split; reflexivity.
+  - destruct (delta v =? 0); [now apply IH|].
+    destruct (mark sm (vpos v - start) (Z.max 1 (vrl v))) as [sm1|] eqn:E1; cbn [bind] in H; [|discriminate].
+    destruct (delta v <? 0).
+    + destruct (mark dm (vpos v - start) (vrl v)) as [dm1|] eqn:E2; cbn [bind] in H; [|discriminate].
+      apply IH in H. apply mark_length in E1, E2. lia.
+    + cbn [bind] in H. apply IH in H. apply mark_length in E1. lia.
+Qed.
+
+Lemma zeros_length n : 0 <= n -> zlen (zeros n) = n.
+Proof. intros H. unfold zeros, zlen. rewrite repeat_length. lia. Qed.
+
+Lemma from_var_stats_del_length vs r g : range_valid r = true -> from_var_stats vs r = Ok g -> zlen (g_del g) = g_ref_length g.
+Proof.
+  intros Hv H. unfold from_var_stats in H.
+  apply bind_ok in H. destruct H as (cvs & Hc & H).
+  apply bind_ok in H. destruct H as ([dm sm] & Hm & H).
+  destruct (ref_offsets 0 cvs) as [po ao]. destruct (rlen r + sum_delta cvs <? 0); [discriminate|].
+  apply bind_ok in H. destruct H as (im & Hi & H). injection H as H. subst g. unfold g_ref_length. cbn [g_del g_range fst].
+  apply ref_masks_length in Hm. destruct Hm as [Hd _]. rewrite Hd. apply zeros_length.
+  unfold range_valid in Hv. unfold rlen. apply andb_prop in Hv. destruct Hv as [_ Hv]. apply Z.leb_le in Hv. lia.
+Qed.
+
+(* the recorded finding, on the translated source: a single base on an insertion point is not reported, two bases over it are *)
+Example alt_single_base_insertion_point_in_source :
+  exists g, from_var_stats [mkVS 13 0 2] (mkRange 10 20) = Ok g /\
+    k_gpo_alt_var_overlaps_var (kgpo_of g) (mkVar 15 [A] [C]) = Ok false /\
+    k_gpo_alt_var_overlaps_var (kgpo_of g) (mkVar 14 [A; A] []) = Ok true.
+Proof. eexists. split; [vm_compute; reflexivity|]. split; vm_compute; reflexivity. Qed.
